@@ -530,6 +530,8 @@ class Bits:
         if isinstance(s, io.BytesIO):
             if length is None:
                 length = s.seek(0, 2) * 8 - offset
+                if length < 0:
+                    raise bitstring.CreationError("BytesIO object is not long enough for specified offset.")
             byteoffset, offset = divmod(offset, 8)
             bytelength = (length + byteoffset * 8 + offset + 7) // 8 - byteoffset
             if length + byteoffset * 8 + offset > s.seek(0, 2) * 8:
@@ -571,7 +573,7 @@ class Bits:
                     self._bitstore = temp.getslice(offset, None)
                 else:
                     self._bitstore = temp.getslice(offset, offset + length)
-                    if len(self) != length:
+                    if len(self) != length or offset > len(temp):
                         raise bitstring.CreationError(f"Can't use a length of {length} bits and an offset of {offset} bits as file length is only {len(temp)} bits.")
 
     def _setbitarray(self, ba: bitarray.bitarray, length: Optional[int], offset: Optional[int]) -> None:
@@ -633,6 +635,8 @@ class Bits:
         if length is None:
             # Use to the end of the data
             length = len(data) * 8 - offset
+            if length < 0:
+                raise bitstring.CreationError(f"The offset of {offset} bits is greater than the {len(data) * 8} bits of data present.")
         else:
             if length + offset > len(data) * 8:
                 raise bitstring.CreationError(f"Not enough data present. Need {length + offset} bits, have {len(data) * 8}.")
